@@ -161,13 +161,14 @@ class SysSpec:
         self.C = rng.uniform(-1, 1, ncomp)
         self.names = tuple(names)
 
-    def module(self, kind):
+    def module(self, kind, **kw):
         cls = {"ode": SysODE, "statio": SysStatio, "nonstatio": SysNonStatio}[kind]
-        return cls(A=jnp.asarray(self.A), Bz=jnp.asarray(self.Bz), C=jnp.asarray(self.C), names=self.names)
+        return cls(A=jnp.asarray(self.A), Bz=jnp.asarray(self.Bz), C=jnp.asarray(self.C), names=self.names, **kw)
 
-    def resid(self, nets, z, eq):
+    def resid(self, nets, z, eq, theta=None):
         us = np.array([nets[k].val(z, eq)[0] for k in self.names])
-        return self.A @ us + self.Bz @ np.asarray(z, float) + self.C * float(np.sum(eq["theta"]))
+        th = float(np.sum(eq["theta"])) if theta is None else theta
+        return self.A @ us + self.Bz @ np.asarray(z, float) + self.C * th
 
 
 # ----------------------------------------------------------------------------- fault-injecting equations (C18)
